@@ -4,8 +4,12 @@
 //            sample = ((x..) sel w date (z..))   w,date,z_k : dyadic or ()      sel : 0/1
 //            dir    = (npas dpas toldis tolang psmin (codir..) bench cylrad idate)   bench,cylrad : dyadic or ()
 //            result = ( ( psmin_impl maxdist ( (sw..) (hh..) (gg..) (gg_swapped..) ) per (ivar, jvar<=ivar) ) per direction )
-//   kind 1 : (1 calc (nx..) (dx..) (x0..) nvar (values per cell: (sel (z..))) hasSel npas (grincr..))
-//            result = ( grid-algorithm block , general-algorithm block )   (same layout as one direction of kind 0)
+//   kind 1 : (1 calc (nx..) (dx..) (x0..) nvar cells hasSel gdirs norder)   cells = ((sel (z..))..)  gdirs = ((npas (grincr..))..)
+//            grid-specialised algorithm (norder > 0: generalised variogram of that order); result = one block list per direction
+//   kind 3 : (3 calc (nx..) nvar cells hasSel (nxx..))                         db_vmap on a grid (no FFT)
+//   kind 4 : (4 calc ndim nvar hasSel hasW samples (nxx..) (dxx..))            db_vmap on points (radius 0)
+//            result = ( ((Nb..) (Var..)) per variable pair )
+//   kind 5 : (5 ndim hasSel samples dir lagnb varnb dx0 dx1)                   db_vcloud: counts per cell (() = empty)
 //   kind 9 : (9 (tolang..))  -> psmin as computed by the library for each angular tolerance
 #include "sx.hpp"
 #include "Db/Db.hpp"
@@ -13,6 +17,9 @@
 #include "Variogram/Vario.hpp"
 #include "Variogram/VarioParam.hpp"
 #include "Variogram/DirParam.hpp"
+#include "Variogram/VMap.hpp"
+#include "Variogram/VCloud.hpp"
+#include "Basic/NamingConvention.hpp"
 #include "Geometry/GeometryHelper.hpp"
 #include "Space/ASpaceObject.hpp"
 #include "Space/ASpace.hpp"
@@ -31,6 +38,9 @@ static ECalcVario calcOf(long long k) {
     case 5: return ECalcVario::POISSON;
     case 9: return ECalcVario::COVARIANCE_NC;
     case 10: return ECalcVario::ORDER4;
+    case 6: return ECalcVario::GENERAL1;
+    case 7: return ECalcVario::GENERAL2;
+    case 8: return ECalcVario::GENERAL3;
     default: throw std::runtime_error("calc code");
   }
 }
@@ -84,8 +94,9 @@ static std::string run(const Sx& c) {
     VarioParam vp(0., dates);
     VectorDouble psm, maxd;
     for (auto& d : c[6].l) {
+      VectorDouble brk; if (d.size() > 9) brk = d[9].vd();
       DirParam dp((int) d[0].i(), d[1].d(), d[2].d(), d[3].d(), 0, (int) d[8].i(), d[6].d(TEST), d[7].d(TEST), 0.,
-                  VectorDouble(), d[5].vd(), TEST);
+                  brk, d[5].vd(), TEST);
       vp.addDir(dp);
       psm.push_back(GeometryHelper::getCosineAngularTolerance(dp.getTolAngle()));
       maxd.push_back(dp.getMaximumDistance());
@@ -114,17 +125,19 @@ static std::string run(const Sx& c) {
     delete v; delete db;
     return o.str();
   }
-  if (kind == 1) {
+  if (kind == 1 || kind == 3) {
+    int off = 0;
     ECalcVario calc = calcOf(c[1].i());
-    VectorInt nx = c[2].vi(); VectorDouble dx = c[3].vd(), x0 = c[4].vd();
+    VectorInt nx = c[2].vi();
+    VectorDouble dx, x0;
+    if (kind == 1) { dx = c[3].vd(); x0 = c[4].vd(); off = 2; }
     int ndim = (int) nx.size();
-    int nvar = (int) c[5].i();
-    bool hasSel = c[7].b();
-    int npas = (int) c[8].i();
-    VectorInt grincr = c[9].vi();
+    int nvar = (int) c[3 + off].i();
+    const Sx& cells = c[4 + off];
+    bool hasSel = c[5 + off].b();
     defineDefaultSpace(ESpaceType::RN, ndim);
     int n = 1; for (int d = 0; d < ndim; d++) n *= nx[d];
-    if ((int) c[6].size() != n) return "(-997 3)";
+    if ((int) cells.size() != n) return "(-997 3)";
     VectorString names; std::vector<std::pair<ELoc, int>> locs;
     if (hasSel) { names.push_back("sel"); locs.push_back({ELoc::SEL, 0}); }
     for (int k = 0; k < nvar; k++) { names.push_back("z" + std::to_string(k + 1)); locs.push_back({ELoc::Z, k}); }
@@ -132,33 +145,80 @@ static std::string run(const Sx& c) {
     VectorDouble tab((size_t) n * ncol);
     for (int i = 0; i < n; i++) {
       int col = 0;
-      if (hasSel) tab[(size_t) (col++) * n + i] = c[6][i][0].b() ? 1. : 0.;
-      for (int k = 0; k < nvar; k++) tab[(size_t) (col++) * n + i] = c[6][i][1][k].d(TEST);
+      if (hasSel) tab[(size_t) (col++) * n + i] = cells[i][0].b() ? 1. : 0.;
+      for (int k = 0; k < nvar; k++) tab[(size_t) (col++) * n + i] = cells[i][1][k].d(TEST);
     }
     DbGrid* g = DbGrid::create(nx, dx, x0, VectorDouble(), ELoadBy::COLUMN, tab, names, VectorString(), false, true);
     if (g == nullptr) return "(-997 4)";
     for (int k = 0; k < ncol; k++) g->setLocator(names[k], locs[k].first, locs[k].second);
+    if (kind == 1) {
+      int norder = (int) c[9].i();
+      if (norder > 0) calc = calcOf(5 + norder);
+      VarioParam vp;
+      for (auto& gd : c[8].l) { DirParam* dp = DirParam::createFromGrid(g, (int) gd[0].i(), gd[1].vi()); vp.addDir(*dp); delete dp; }
+      Vario* v = Vario::computeFromDb(vp, g, calc);
+      if (v == nullptr) { delete g; return "(-996 2)"; }
+      o << "(";
+      for (int idir = 0; idir < (int) c[8].size(); idir++) { o << "("; dumpDir(o, v, idir, nvar); o << ")"; }
+      o << ")";
+      delete v; delete g;
+      return o.str();
+    }
+    VectorInt nxx = c[6].vi();
+    DbGrid* m = db_vmap(g, calc, nxx, VectorDouble(), 0, false);
+    if (m == nullptr) { delete g; return "(-996 4)"; }
+    int nvs2 = nvar * (nvar + 1) / 2; int nc = m->getColumnNumber();
     o << "(";
-    {
-      DirParam* dp = DirParam::createFromGrid(g, npas, grincr);
-      VarioParam vp; vp.addDir(*dp);
-      Vario* v = Vario::computeFromDb(vp, g, calc);
-      if (v == nullptr) { delete g; delete dp; return "(-996 2)"; }
-      o << "("; dumpDir(o, v, 0, nvar); o << ")";
-      delete v; delete dp;
-    }
-    {
-      VectorDouble codir(ndim); double dp2 = 0.;
-      for (int d = 0; d < ndim; d++) { codir[d] = grincr[d] * dx[d]; dp2 += codir[d] * codir[d]; }
-      DirParam dp(npas, std::sqrt(dp2), 0.5, 0., 0, 0, TEST, TEST, 0., VectorDouble(), codir, TEST);
-      VarioParam vp; vp.addDir(dp);
-      Vario* v = Vario::computeFromDb(vp, g, calc);
-      if (v == nullptr) { delete g; return "(-996 3)"; }
-      o << "("; dumpDir(o, v, 0, nvar); o << ")";
-      delete v;
-    }
+    for (int k = 0; k < nvs2; k++)
+      o << "(" << sx_vd(m->getColumnByColIdx(nc - nvs2 + k, false, false)) << " " << sx_vd(m->getColumnByColIdx(nc - 2 * nvs2 + k, false, false)) << ")";
     o << ")";
-    delete g;
+    delete m; delete g;
+    return o.str();
+  }
+  if (kind == 4 || kind == 5) {
+    int ndim, nvar; bool hasSel, hasW; const Sx* ssp;
+    ECalcVario calc = ECalcVario::VARIOGRAM;
+    if (kind == 4) { calc = calcOf(c[1].i()); ndim = (int) c[2].i(); nvar = (int) c[3].i(); hasSel = c[4].b(); hasW = c[5].b(); ssp = &c[6]; }
+    else { ndim = (int) c[1].i(); nvar = 1; hasSel = c[2].b(); hasW = false; ssp = &c[3]; }
+    const Sx& ss = *ssp;
+    int n = (int) ss.size();
+    defineDefaultSpace(ESpaceType::RN, ndim);
+    VectorString names; std::vector<std::pair<ELoc, int>> locs;
+    for (int d = 0; d < ndim; d++) { names.push_back("x" + std::to_string(d + 1)); locs.push_back({ELoc::X, d}); }
+    if (hasSel) { names.push_back("sel"); locs.push_back({ELoc::SEL, 0}); }
+    if (hasW) { names.push_back("wgt"); locs.push_back({ELoc::W, 0}); }
+    for (int k = 0; k < nvar; k++) { names.push_back("z" + std::to_string(k + 1)); locs.push_back({ELoc::Z, k}); }
+    int ncol = (int) names.size();
+    VectorDouble tab((size_t) n * ncol);
+    for (int i = 0; i < n; i++) {
+      int col = 0;
+      for (int d = 0; d < ndim; d++) tab[(size_t) (col++) * n + i] = ss[i][0][d].d();
+      if (hasSel) tab[(size_t) (col++) * n + i] = ss[i][1].b() ? 1. : 0.;
+      if (hasW) tab[(size_t) (col++) * n + i] = ss[i][2].d(TEST);
+      for (int k = 0; k < nvar; k++) tab[(size_t) (col++) * n + i] = ss[i][4][k].d(TEST);
+    }
+    Db* db = Db::createFromSamples(n, ELoadBy::COLUMN, tab, names, VectorString(), false);
+    if (db == nullptr) return "(-997 2)";
+    for (int k = 0; k < ncol; k++) db->setLocator(names[k], locs[k].first, locs[k].second);
+    if (kind == 4) {
+      DbGrid* m = db_vmap(db, calc, c[7].vi(), c[8].vd(), 0, false);
+      if (m == nullptr) { delete db; return "(-996 5)"; }
+      int nvs2 = nvar * (nvar + 1) / 2; int nc = m->getColumnNumber();
+      o << "(";
+      for (int k = 0; k < nvs2; k++)
+        o << "(" << sx_vd(m->getColumnByColIdx(nc - nvs2 + k, false, false)) << " " << sx_vd(m->getColumnByColIdx(nc - 2 * nvs2 + k, false, false)) << ")";
+      o << ")";
+      delete m; delete db;
+      return o.str();
+    }
+    const Sx& d = c[4];
+    DirParam dp((int) d[0].i(), d[1].d(), d[2].d(), d[3].d(), 0, 0, d[6].d(TEST), d[7].d(TEST), 0., VectorDouble(), d[5].vd(), TEST);
+    VarioParam vp; vp.addDir(dp);
+    int lagnb = (int) c[5].i(), varnb = (int) c[6].i();
+    DbGrid* m = db_vcloud(db, &vp, lagnb * c[7].d(), varnb * c[8].d(), lagnb, varnb);
+    if (m == nullptr) { delete db; return "(-996 6)"; }
+    o << "(" << sx_vd(m->getColumnByColIdx(m->getColumnNumber() - 1, false, false)) << ")";
+    delete m; delete db;
     return o.str();
   }
   return "(-997 1)";
